@@ -324,6 +324,92 @@ def registrationCheck (E : Env) (fs : FS) (http : Option Bool) (rhsm : Option St
   | .done => proceed g.1 (some false)                          -- no identifier file: `return False` before any request
   | e => (g.1, e)
 
+/-- `if date is None: date = get_time()` (65-66) -/
+def dateOr : Option Str → Str
+  | some d => d
+  | none => timeStamp
+
+/-! ## the legacy (`legacy_upload=True`) registration flow: support.py:23-80, client.py:162-229, connection.py:650-703 -/
+
+/-- what `_legacy_api_registration_check` learned from `GET /v1/systems/<machine-id>` (connection.py:662-703) -/
+inductive Api
+  | registered              -- 200 and "unregistered_at": null                       → True
+  | unreachable             -- ConnectionError, a status not in (200, 404), no JSON   → False
+  | notYet                  -- no "unregistered_at" key                               → None
+  | unregAt (d : Str)       -- "unregistered_at": "<date>"                            → the date string
+  deriving DecidableEq, Repr
+
+/-- no identifier file: `return None` before any request (connection.py:662) -/
+def effApi (E : Env) (fs : FS) (api : Api) : Api := if idIsFile E fs then api else .notYet
+
+/-- `_legacy_registration_check` turns the answer into status / unreachable; registration_check then resyncs the
+    markers: registered → write_registered_file(); not registered / unregistered → write_unregistered_file() and the
+    identifier file is deleted; unreachable → nothing (support.py:60-80 with `pconn.config.legacy_upload`) -/
+def legacySync (E : Env) (fs : FS) : Api → FS × Res
+  | .registered => writeState E .unreg .reg timeStamp fs
+  | .unreachable => (fs, .done)
+  | _ => unregisterAndDrop E fs
+
+/-- support.registration_check(pconn), legacy branch -/
+def legacyRegistrationCheck (E : Env) (fs : FS) (api : Api) (rhsm : Option Str) (fresh : Str) : FS × Res :=
+  let g := fetch E fs rhsm fresh
+  match g.2 with
+  | .id _ => legacySync E g.1 api
+  | .done => legacySync E g.1 .notYet
+  | e => (g.1, e)
+
+def apiDate : Api → Option Str
+  | .unregAt d => some d
+  | _ => none
+
+/-- client._legacy_handle_registration(config, pconn) (client.py:162-229); `reg` = config.register with a register()
+    that reaches the API (create_system(new_machine_id=False) reads the identifier once more) -/
+def legacyHandleRegistration (E : Env) (fs : FS) (api : Api) (reg : Bool) (rhsm : Option Str) (fresh fresh2 : Str) :
+    FS × Res :=
+  -- `fresh`, `fresh2`: the first and the second value of uuid.uuid4() during the call; the status check consumes the
+  -- first one exactly when it finds an EMPTY identifier file (and then fills it)
+  let fg := if readsAs E fs = some [] then fresh2 else fresh
+  let a := effApi E fs api
+  let c := legacyRegistrationCheck E fs api rhsm fresh
+  if c.2 = .done then
+    if idIsFile E c.1 && a != .registered then (c.1, .done)          -- "Machine-id found, … unregister first": return False
+    else
+      let g := genId E c.1 false rhsm fg                             -- logger.debug('Machine-id: %s', generate_machine_id())
+      match g.2 with
+      | .id _ =>
+        if a = .unreachable then (g.1, .done)
+        else if a = .registered then writeState E .unreg .reg timeStamp g.1
+        else if reg then
+          let g2 := genId E g.1 false rhsm fresh2                     -- register() → create_system(False)
+          match g2.2 with
+          | .id _ => writeState E .unreg .reg timeStamp g2.1
+          | e => (g2.1, e)
+        else writeState E .reg .unreg (dateOr (apiDate a)) g.1        -- write_unregistered_file(date=check['unreg_date'])
+      | e => (g.1, e)
+  else c
+
+/-- InsightsConnection.handle_fail_rcs(res) with res.status_code == 412 (connection.py:476-486):
+    `write_unregistered_file(res.json()["unregistered_at"])` inside `try … except:` — whatever it raises is swallowed -/
+def rc412 (E : Env) (fs : FS) (date : Option Str) : FS × Res :=
+  ((writeState E .reg .unreg (dateOr date) fs).1, .done)
+
+/-- client._legacy_handle_unregistration(config, pconn) (client.py:259-285); `delOk` = the DELETE of
+    InsightsConnection._legacy_unregister went through (False = ConnectionError) -/
+def legacyHandleUnregistration (E : Env) (fs : FS) (api : Api) (force delOk : Bool) (rhsm : Option Str) (fresh fresh2 : Str) :
+    FS × Res :=
+  let fg := if readsAs E fs = some [] then fresh2 else fresh
+  let a := effApi E fs api
+  let c := legacyRegistrationCheck E fs api rhsm fresh
+  if c.2 = .done then
+    if a = .unreachable then (if force then unregisterAndDrop E c.1 else (c.1, .done))
+    else if a = .registered then
+      let g := genId E c.1 false rhsm fg                             -- pconn.unregister(): generate_machine_id(), DELETE
+      match g.2 with
+      | .id _ => if delOk then unregisterAndDrop E g.1 else (g.1, .done)
+      | e => (g.1, e)
+    else unregisterAndDrop E c.1                                     -- 'This system is already unregistered.'
+  else c
+
 inductive Op
   | readId (rd : Reader) (rhsm : Option Str) (fresh : Str)
   | newId (w : Regen) (rhsm : Option Str) (fresh : Str)
@@ -335,12 +421,11 @@ inductive Op
   | connUnregister
   | handleUnregistration (force : Bool)
   | registrationCheck (http : Option Bool) (rhsm : Option Str) (fresh : Str)
+  | legacyRegistrationCheck (api : Api) (rhsm : Option Str) (fresh : Str)
+  | legacyHandleRegistration (api : Api) (reg : Bool) (rhsm : Option Str) (fresh fresh2 : Str)
+  | rc412 (date : Option Str)
+  | legacyHandleUnregistration (api : Api) (force delOk : Bool) (rhsm : Option Str) (fresh fresh2 : Str)
   deriving DecidableEq, Repr
-
-/-- `if date is None: date = get_time()` (65-66) -/
-def dateOr : Option Str → Str
-  | some d => d
-  | none => timeStamp
 
 /-- every reader / regenerator is the same function of the file system: the code has no other copy of the identifier -/
 def step (E : Env) (fs : FS) : Op → FS × Res
@@ -354,6 +439,10 @@ def step (E : Env) (fs : FS) : Op → FS × Res
   | .connUnregister => (connUnregister E fs).1
   | .handleUnregistration force => handleUnregistration E fs force
   | .registrationCheck http r f => registrationCheck E fs http r f
+  | .legacyRegistrationCheck api r f => legacyRegistrationCheck E fs api r f
+  | .legacyHandleRegistration api reg r f f2 => legacyHandleRegistration E fs api reg r f f2
+  | .rc412 date => rc412 E fs date
+  | .legacyHandleUnregistration api force ok r f f2 => legacyHandleUnregistration E fs api force ok r f f2
 
 /-- state after a history -/
 def exec (E : Env) (fs : FS) : List Op → FS
